@@ -51,6 +51,17 @@ type scope struct {
 }
 
 func newScope(rootProvider *provider, parent *scope, ctx context.Context, cancel context.CancelFunc) (*scope, error) {
+	s := newUninitializedScope(rootProvider, parent, ctx, cancel)
+	if err := s.initialize(); err != nil {
+		return nil, err
+	}
+
+	return s, nil
+}
+
+// newUninitializedScope creates a scope without running the scoped
+// initialization functions; the caller must call initialize.
+func newUninitializedScope(rootProvider *provider, parent *scope, ctx context.Context, cancel context.CancelFunc) *scope {
 	if ctx == nil {
 		ctx = context.Background()
 	}
@@ -71,24 +82,27 @@ func newScope(rootProvider *provider, parent *scope, ctx context.Context, cancel
 	ctx = context.WithValue(ctx, scopeContextKey{}, s)
 	s.context = ctx
 
-	// Initialize scoped services with no returns (initialization functions)
-	// These need to be called when the scope is created
-	for _, descriptor := range rootProvider.voidReturnScopedDescriptors {
+	return s
+}
+
+// initialize runs the scoped services with no returns (initialization
+// functions). These need to be called when the scope is created.
+func (s *scope) initialize() error {
+	for _, descriptor := range s.rootProvider.voidReturnScopedDescriptors {
 		if _, err := s.createInstance(descriptor); err != nil {
 			// Dispose what earlier initializers created and release the
 			// derived context; the scope is never handed out.
 			_ = s.Close()
 
-			return nil, &ResolutionError{
+			return &ResolutionError{
 				ServiceType: descriptor.Type,
 				ServiceKey:  descriptor.Key,
 				Cause:       fmt.Errorf("failed to initialize scoped service: %w", err),
 			}
-
 		}
 	}
 
-	return s, nil
+	return nil
 }
 
 // Provider returns the parent provider that created this scope.
